@@ -290,9 +290,8 @@ func (sc *specCtx) evalBinary(e *Binary) Val {
 		switch x.S {
 		case SSeq:
 			t = app("sq_eq", x.T, y.T)
-		case SF64:
-			t = app("fp.eq", x.T, y.T)
 		default:
+			// on floats "==" in a specification is identity of the value (use feq for Go's ==)
 			t = eq(x.T, y.T)
 		}
 		if e.Op == "!=" {
@@ -537,6 +536,10 @@ func (sc *specCtx) evalCall(e *CallE) Val {
 			return Val{T: app("box_Bool", v.T), S: SU}
 		case SStr:
 			return Val{T: app("box_Str", v.T), S: SU}
+		case SF64:
+			return Val{T: app("box_F64", v.T), S: SU}
+		case SC128:
+			return Val{T: app("box_Cplx", v.T), S: SU}
 		}
 		specFail("%s: cannot box sort %s", e, v.S.Short())
 		return v
@@ -716,6 +719,10 @@ func (sc *specCtx) evalCall(e *CallE) Val {
 			sc.fc.e.regionIDs[rn] = rid
 		}
 		return Val{T: fmt.Sprintf("(addr_of %d %s)", rid, x.T), S: SU}
+	case "ssub":
+		a := args(3)
+		sc.want(a[0], SStr, e)
+		return Val{T: app("str_sub", a[0].T, a[1].T, a[2].T), S: SStr}
 	case "sconcat":
 		a := args(2)
 		sc.want(a[0], SStr, e)
